@@ -25,6 +25,8 @@ func init() {
 			"NOT decided: that the path search returns the unique tree path and that a device following the tree ends at the target (algorithmic / device model), prompt-to-level inference by regular expressions.",
 		Assumptions: []string{"buildPrivChangeMap returns a path starting at its first argument (its element 1 is the next hop)", "the device's modes follow the configured tree"},
 		Mutants: []Mutant{
+			{ID: "C04-candidates-filtered", Desc: "determineCurrentPriv drops the candidates that are the parent of another candidate", Rule: "C04/level-detection",
+				Edits: []Edit{{File: "driver/network/acquirepriv.go", Old: "\treturn possiblePrivs, nil\n}", New: "\tvar specific []string\n\n\tfor _, name := range possiblePrivs {\n\t\tisParent := false\n\n\t\tfor _, other := range possiblePrivs {\n\t\t\tisParent = isParent || d.PrivilegeLevels[other].PreviousPriv == name\n\t\t}\n\n\t\tif !isParent {\n\t\t\tspecific = append(specific, name)\n\t\t}\n\t}\n\n\treturn specific, nil\n}"}}},
 			{ID: "C04-not-contains-equality", Desc: "not-contains tested by equality instead of substring", Rule: "C04/level-detection",
 				Edits: []Edit{{File: "driver/network/acquirepriv.go", Old: "if util.StringContainsAny(currentPrompt, priv.NotContains) {", New: "if util.StringSliceContains(priv.NotContains, currentPrompt) {"}}},
 			{ID: "C04-op-options-break", Desc: "network.NewOperation stops at the first option that is not its own", Rule: "C04/op-options-applied",
@@ -71,6 +73,7 @@ func runC04(c *Ctx, r *Report) {
 	r.Rule("C04/level-cache-writers", "the cached privilege level is written only where it was determined from the device's prompt", 1)
 	checkLevelCacheWriters(c, r, "C04/level-cache-writers")
 	importFoundation(c, r, "C04", "driver-options")
+	importFoundation(c, r, "C04", "read-until")
 	r.Rule("C04/pattern-recompiled", "buildPrivGraph recompiles every level's pattern unconditionally (UpdatePrivileges after an edit takes effect)", 1)
 	r.Rule("C04/always-fetches-prompt", "AcquirePriv reports success only after it fetched the device's prompt", 1)
 	checkPatternRecompiled(c, r, "C04/pattern-recompiled")
@@ -80,7 +83,7 @@ func runC04(c *Ctx, r *Report) {
 	r.Rule("C04/error-classes", "each failure site named by the property wraps the sentinel the property names (timeout / auth / connection / privilege / NETCONF / operation / platform error)", 2)
 	checkErrorClasses(c, r, "C04")
 	r.Rule("C04/refuse-unknown-first", "an unknown target is refused with ErrPrivilegeError before anything that can reach the transport, and only an unknown target is", 3)
-	r.Rule("C04/level-detection", "a level is a candidate exactly when its pattern matches the prompt and no not-contains string occurs in it (substring); the two list helpers are exists-loops", 3)
+	r.Rule("C04/level-detection", "a level is a candidate exactly when its pattern matches the prompt and no not-contains string occurs in it (substring); the two list helpers are exists-loops; the candidates are returned as collected", 4)
 	r.Rule("C04/op-options-applied", "the per-operation option constructors (network, generic, channel) apply the full list in order and leave the loop only on a non-ignored error", 3)
 	r.Rule("C04/get-prompt", "GetPrompt writes one return, reads until the prompt and returns the prompt pattern's match in those bytes", 1)
 	r.Rule("C04/graph-links", "buildPrivGraph links every level with its previous level in both directions, unconditionally", 2)
